@@ -9,97 +9,102 @@
     3 comments, 4 more_comments, 5..12 old_format_re1..8); lines that match none
     are absent.  The seven patterns the control flow and the groups depend on
     are model leaves, compared one by one with the live patterns ([CLeaf]). *)
-From Coq Require Import String.
+From Coq Require Import String.   (* only for the [CLit] cases *)
 From Verif Require Import Lib.Base Lib.Dec Lib.PyStr Gen.PyChars Gen.ClChars
-  Changelog.Model Changelog.Spec.
+  Changelog.Model Changelog.Spec Changelog.Lit.
 
-(** * Literals *)
+(** * Literals
+
+    Texts are written as [lit] (Changelog/Lit.v: packed UTF-8 in primitive integers) and
+    decoded by [declit]; the case files open [uint63_scope]. *)
 
 Inductive linput :=
-| LStr (s : string)
-| LBytes (s : string)             (* the UTF-8 encoding of s was passed; decoding is assumed *)
-| LLines (ls : list string)
-| LFile (s : string).
+| LStr (s : lit)
+| LBytes (s : lit)             (* the UTF-8 encoding of s was passed; decoding is assumed *)
+| LLines (ls : list lit)
+| LFile (s : lit).
 
 Record oblock := mkOB {
-  ob_package : option string;
-  ob_version : option string;      (* _raw_version *)
-  ob_dists : option string;
-  ob_urgency : option string;
-  ob_comment : string;
-  ob_changes : list string;
-  ob_author : option string;
-  ob_date : option string;
-  ob_trailing : list string;
-  ob_pairs : list (string * string);
+  ob_package : option lit;
+  ob_version : option lit;      (* _raw_version *)
+  ob_dists : option lit;
+  ob_urgency : option lit;
+  ob_comment : lit;
+  ob_changes : list lit;
+  ob_author : option lit;
+  ob_date : option lit;
+  ob_trailing : list lit;
+  ob_pairs : list (lit * lit);
   ob_no_trailer : bool;
-  ob_sep : string;
-  ob_pubversion : option string;   (* str(block.version) through the public property; None if it raised or is None *)
+  ob_sep : lit;
+  ob_pubversion : option lit;   (* str(block.version) through the public property; None if it raised or is None *)
 }.
 
 (** a Changelog object as observed, with the number of warnings its construction emitted *)
 Record ostate := mkOS {
-  os_initial : list string;
+  os_initial : list lit;
   os_blocks : list oblock;
   os_warnings : N;
-  os_str : result string;          (* str(changelog) *)
+  os_str : result lit;          (* str(changelog) *)
 }.
 
 Inductive lop :=
-| LNewBlock (package version dists urgency comment : option string)
-            (changes : option (list string)) (author date : option string)
-            (pairs : option (list (string * string)))
-| LAddChange (s : string)
-| LSetAttr (a : attr) (v : string).
+| LNewBlock (package version dists urgency comment : option lit)
+            (changes : option (list lit)) (author date : option lit)
+            (pairs : option (list (lit * lit)))
+| LAddChange (s : lit)
+| LSetAttr (a : attr) (v : lit).
 
 (** expected exposed attributes of one generated block *)
 Record lxblock := mkLX {
-  lx_package : string; lx_version : string; lx_dists : string; lx_urgency : string;
-  lx_comment : string; lx_pairs : list (string * string); lx_changes : list string;
-  lx_author : string; lx_date : string;
+  lx_package : lit; lx_version : lit; lx_dists : lit; lx_urgency : lit;
+  lx_comment : lit; lx_pairs : list (lit * lit); lx_changes : list lit;
+  lx_author : lit; lx_date : lit;
 }.
 
 Inductive case :=
+(** the literal decoder of Changelog/Lit.v against Lib/Dec.v on the same text *)
+| CLit (s : String.string) (l : lit)
 (** leaf [which] on subject [s]: None = no match, Some groups (empty list for the boolean leaves) *)
-| CLeaf (which : N) (s : string) (groups : option (list string))
+| CLeaf (which : N) (s : lit) (groups : option (list lit))
 (** C04: Changelog(inp, strict=True); [text] is the changelog text the input stands for;
     [gen] the attributes the generator wrote (None for fixture files) *)
-| CWf (text : string) (inp : linput) (gen : option (list lxblock)) (tbl : list (string * N))
+| CWf (text : lit) (inp : linput) (gen : option (list lxblock)) (tbl : list (lit * N))
       (o : result ostate)
 (** C15: Changelog(inp, allow_empty_author, max_blocks) lenient and strict;
     [re] = Changelog(str(lenient result), allow_empty_author) when str() succeeded *)
-| CMut (inp : linput) (allow : bool) (maxb : option N) (tbl : list (string * N))
+| CMut (inp : linput) (allow : bool) (maxb : option N) (tbl : list (lit * N))
        (lenient strict : result ostate) (re : option (result ostate))
 (** C15: Changelog() or Changelog(inp), then the editing calls; [o] = final object
     (or the exception of the first call that raised); [re] as above *)
-| CEdit (start : option linput) (tbl : list (string * N)) (ops : list lop)
+| CEdit (start : option linput) (tbl : list (lit * N)) (ops : list lop)
         (o : result ostate) (re : option (result ostate)).
 
 (** * Decoding *)
 
-Definition dopt (o : option string) : option str := option_map dec o.
-Definition dpairs (l : list (string * string)) : list (str * str) :=
-  map (fun kv => (dec (fst kv), dec (snd kv))) l.
+Definition dopt (o : option lit) : option str := option_map declit o.
+Definition dpairs (l : list (lit * lit)) : list (str * str) :=
+  map (fun kv => (declit (fst kv), declit (snd kv))) l.
 
 Definition input_of (i : linput) : input :=
   match i with
-  | LStr s | LBytes s => InStr (dec s)
-  | LLines ls => InLines (map dec ls)
-  | LFile s => InFile (dec s)
+  | LStr s | LBytes s => InStr (declit s)
+  | LLines ls => InLines (map declit ls)
+  | LFile s => InFile (declit s)
   end.
 
 Definition block_of (b : oblock) : block :=
   mkBlock (dopt (ob_package b)) (dopt (ob_version b)) (dopt (ob_dists b)) (dopt (ob_urgency b))
-          (dec (ob_comment b)) (map dec (ob_changes b)) (dopt (ob_author b)) (dopt (ob_date b))
-          (map dec (ob_trailing b)) (dpairs (ob_pairs b)) (ob_no_trailer b) (dec (ob_sep b)).
+          (declit (ob_comment b)) (map declit (ob_changes b)) (dopt (ob_author b)) (dopt (ob_date b))
+          (map declit (ob_trailing b)) (dpairs (ob_pairs b)) (ob_no_trailer b) (declit (ob_sep b)).
 
 Definition op_of (o : lop) : op :=
   match o with
   | LNewBlock p v d u uc ch a dt ps =>
-      NewBlock (dopt p) (dopt v) (dopt d) (dopt u) (dopt uc) (option_map (map dec) ch)
+      NewBlock (dopt p) (dopt v) (dopt d) (dopt u) (dopt uc) (option_map (map declit) ch)
                (dopt a) (dopt dt) (option_map dpairs ps)
-  | LAddChange s => AddChange (dec s)
-  | LSetAttr a v => SetAttr a (dec v)
+  | LAddChange s => AddChange (declit s)
+  | LSetAttr a v => SetAttr a (declit v)
   end.
 
 Fixpoint lookup (l : str) (tbl : list (str * N)) : N :=
@@ -108,8 +113,8 @@ Fixpoint lookup (l : str) (tbl : list (str * N)) : N :=
   | (k, m) :: t => if str_eqb k l then m else lookup l t
   end.
 
-Definition junk_of (tbl : list (string * N)) : junk :=
-  let t := map (fun km => (dec (fst km), snd km)) tbl in
+Definition junk_of (tbl : list (lit * N)) : junk :=
+  let t := map (fun km => (declit (fst km), snd km)) tbl in
   let bit (i : N) (l : str) := N.testbit (lookup l t) i in
   mkJunk (bit 0%N) (bit 1%N) (bit 2%N) (bit 3%N) (bit 4%N)
          (bit 5%N) (bit 6%N) (bit 7%N) (bit 8%N) (bit 9%N) (bit 10%N) (bit 11%N) (bit 12%N).
@@ -133,16 +138,16 @@ Definition block7_eqb (a b : block) : bool :=
   && strs_eqb (b_changes a) (b_changes b)
   && ostr_eqb (b_author a) (b_author b) && ostr_eqb (b_date a) (b_date b).
 
-Definition rstr_eqb (a : result str) (b : result string) : bool :=
+Definition rstr_eqb (a : result str) (b : result lit) : bool :=
   match a, b with
-  | Ok x, Ok y => str_eqb x (dec y)
+  | Ok x, Ok y => str_eqb x (declit y)
   | Err e, Err f => err_eqb e f
   | _, _ => false
   end.
 
 (** the model's object [c] (built with [nwarn] warnings) is what was observed *)
 Definition cl_matches (c : changelog) (nwarn : nat) (os : ostate) : bool :=
-  strs_eqb (cl_initial c) (map dec (os_initial os))
+  strs_eqb (cl_initial c) (map declit (os_initial os))
   && list_eqb block_eqb (cl_blocks c) (map block_of (os_blocks os))
   && (N.of_nat nwarn =? os_warnings os)%N
   && rstr_eqb (format_changelog false c) (os_str os).
@@ -154,7 +159,7 @@ Definition res_matches (r : result (changelog * nat)) (o : result ostate) : bool
   | _, _ => false
   end.
 
-Definition model_parse (tbl : list (string * N)) (strict allow : bool) (maxb : option N)
+Definition model_parse (tbl : list (lit * N)) (strict allow : bool) (maxb : option N)
     (i : input) : result (changelog * nat) :=
   match parse_changelog (junk_of tbl) strict allow (option_map N.to_nat maxb) i with
   | Ok st => Ok (cl_of st, length (p_warn st))
@@ -162,7 +167,7 @@ Definition model_parse (tbl : list (string * N)) (strict allow : bool) (maxb : o
   end.
 
 (** re-parse of the model's own str() output *)
-Definition model_reparse (tbl : list (string * N)) (allow : bool) (r : result (changelog * nat))
+Definition model_reparse (tbl : list (lit * N)) (allow : bool) (r : result (changelog * nat))
   : option (result (changelog * nat)) :=
   match r with
   | Ok (c, _) =>
@@ -196,16 +201,16 @@ Definition leaf (which : N) (s : str) : option (list str) :=
 (** * The expected attributes *)
 
 Definition xblock_of_lit (x : lxblock) : xblock :=
-  mkXB (dec (lx_package x)) (dec (lx_version x)) (dec (lx_dists x)) (dec (lx_urgency x))
-       (dec (lx_comment x)) (dpairs (lx_pairs x)) (map dec (lx_changes x))
-       (dec (lx_author x)) (dec (lx_date x)).
+  mkXB (declit (lx_package x)) (declit (lx_version x)) (declit (lx_dists x)) (declit (lx_urgency x))
+       (declit (lx_comment x)) (dpairs (lx_pairs x)) (map declit (lx_changes x))
+       (declit (lx_author x)) (declit (lx_date x)).
 
 (** what an observed block exposes through the public attributes *)
 Definition xblock_of_obs (b : oblock) : option xblock :=
   match ob_package b, ob_pubversion b, ob_dists b, ob_urgency b, ob_author b, ob_date b with
   | Some p, Some v, Some d, Some u, Some a, Some dt =>
-      Some (mkXB (dec p) (dec v) (dec d) (dec u) (dec (ob_comment b)) (dpairs (ob_pairs b))
-                 (map dec (ob_changes b)) (dec a) (dec dt))
+      Some (mkXB (declit p) (declit v) (declit d) (declit u) (declit (ob_comment b)) (dpairs (ob_pairs b))
+                 (map declit (ob_changes b)) (declit a) (declit dt))
   | _, _, _, _, _, _ => None
   end.
 
@@ -221,13 +226,13 @@ Definition oxblock_eqb (a : option xblock) (b : xblock) : bool :=
 
 (** * agree *)
 
-Definition start_model (tbl : list (string * N)) (start : option linput) : result (changelog * nat) :=
+Definition start_model (tbl : list (lit * N)) (start : option linput) : result (changelog * nat) :=
   match start with
   | None => Ok (empty_changelog, 0)
   | Some i => model_parse tbl false false None (input_of i)
   end.
 
-Definition edit_model (tbl : list (string * N)) (start : option linput) (ops : list lop)
+Definition edit_model (tbl : list (lit * N)) (start : option linput) (ops : list lop)
   : result (changelog * nat) :=
   match start_model tbl start with
   | Ok (c, n) =>
@@ -240,13 +245,14 @@ Definition edit_model (tbl : list (string * N)) (start : option linput) (ops : l
 
 Definition agree (c : case) : bool :=
   match c with
-  | CLeaf w s g => option_eqb strs_eqb (leaf w (dec s)) (option_map (map dec) g)
+  | CLit s l => str_eqb (Lib.Dec.dec s) (declit l)
+  | CLeaf w s g => option_eqb strs_eqb (leaf w (declit s)) (option_map (map declit) g)
   | CWf text inp gen tbl o =>
       res_matches (model_parse tbl true false None (input_of inp)) o
       && match gen with
          | Some g =>
              (* the generator's text is in the grammar and stands for what it meant to write *)
-             match doc_of (dec text) with
+             match doc_of (declit text) with
              | Some d => list_eqb xblock_eqb (map expose (w_blocks d)) (map xblock_of_lit g)
              | None => false
              end
@@ -272,7 +278,7 @@ Definition normal_form (os : ostate) (re : option (result ostate)) : bool :=
       match re with
       | Some (Ok os2) =>
           list_eqb block7_eqb (map block_of (os_blocks os)) (map block_of (os_blocks os2))
-          && rstr_eqb (Ok (dec t)) (os_str os2)
+          && rstr_eqb (Ok (declit t)) (os_str os2)
       | _ => false
       end
   | Err _ => true
@@ -292,14 +298,15 @@ Definition op_in_domain (o : lop) : bool :=
 
 Definition holds (c : case) : bool :=
   match c with
+  | CLit _ _ => true
   | CLeaf _ _ _ => true
   | CWf text inp gen tbl o =>
-      match doc_of (dec text) with
+      match doc_of (declit text) with
       | Some d =>
           match o with
           | Ok os =>
               (os_warnings os =? 0)%N
-              && rstr_eqb (Ok (dec text)) (os_str os)
+              && rstr_eqb (Ok (declit text)) (os_str os)
               && list_eqb2 oxblock_eqb (map xblock_of_obs (os_blocks os)) (map expose (w_blocks d))
           | Err _ => false
           end
@@ -315,7 +322,7 @@ Definition holds (c : case) : bool :=
            | Ok os' =>
                (os_warnings os =? 0)%N && (os_warnings os' =? 0)%N
                && list_eqb block_eqb (map block_of (os_blocks os)) (map block_of (os_blocks os'))
-               && strs_eqb (map dec (os_initial os)) (map dec (os_initial os'))
+               && strs_eqb (map declit (os_initial os)) (map declit (os_initial os'))
            end)
           && normal_form os re
       | Err _ => false                     (* the lenient constructor raised *)
